@@ -80,7 +80,24 @@ func (e *Engine) syntheticMethod(al IfaceAlt, name string, args []Value, g *Term
 	v := e.loadOr(r).(StructV)
 	switch name {
 	case "Error":
-		return v.f[0]
+		// app/errors.Wrap / fmt.Errorf("...%w") semantics: "msg: cause"
+		msg := v.f[0]
+		cause, ok := v.f[1].(IfaceV)
+		if !ok || len(cause.alts) == 0 || cause.isNil().IsTrue() {
+			return msg
+		}
+		ms, ok := msg.(StringV)
+		if !ok || ms.hasAtom() {
+			return msg
+		}
+		cm := e.invoke(cause, errorIface.Method(0), nil, And(g, Not(cause.isNil())), pos)
+		cs, ok := cm.(StringV)
+		if !ok || cs.hasAtom() {
+			return msg
+		}
+		st := types.Typ[types.String]
+		joined := e.binop(token.ADD, e.binop(token.ADD, ms, Str(": "), st, st, g, pos), cs, st, st, g, pos)
+		return iteV(cause.isNil(), msg, joined)
 	case "Unwrap":
 		return v.f[1]
 	}
@@ -107,6 +124,13 @@ func (e *Engine) errorsIs(err, target Value, depth int) *Term {
 			cause := st.f[1]
 			if cv, ok := cause.(IfaceV); ok && len(cv.alts) > 0 {
 				res = Or(res, And(al.c, e.errorsIs(cv, target, depth+1)))
+			}
+		} else if sel := e.prog.MethodSets.MethodSet(al.typ).Lookup(nil, "Unwrap"); sel != nil {
+			if fn := e.prog.MethodValue(sel); fn != nil && fn.Signature.Results().Len() == 1 && fn.Signature.Params().Len() == 0 {
+				cause := e.call(fn, []Value{al.v}, And(curGuard, al.c), token.NoPos)
+				if cv, ok := cause.(IfaceV); ok && len(cv.alts) > 0 {
+					res = Or(res, And(al.c, e.errorsIs(cv, target, depth+1)))
+				}
 			}
 		}
 	}
@@ -454,6 +478,19 @@ func (e *Engine) tryStub(name string, fn *ssa.Function, args []Value, g *Term, p
 				e.idleHook = fv
 			} else {
 				e.idleHook = FuncV{}
+			}
+			return nil, true
+		case "DeferGo":
+			e.deferGo = args[0].(*Term).IsTrue()
+			return nil, true
+		case "RunSpawned":
+			for len(e.spawned) > 0 {
+				th := e.spawned[0]
+				e.spawned = e.spawned[1:]
+				saved := e.deferGo
+				e.deferGo = false
+				th()
+				e.deferGo = saved
 			}
 			return nil, true
 		case "Symbolic":
